@@ -7,7 +7,29 @@ VERIF = os.path.dirname(os.path.dirname(os.path.abspath(__file__)))
 
 TECH = 'Lean 4 theorem about an executable model + translator/correspondence tie to the source'
 
+RESOLVE_NOTE = ('Trusted: Lean kernel (axioms propext, Classical.choice, Quot.sound only), translate.py, the correspondence '
+                'harness and its generators; pysmiles (SMILES reading, correct_aromatic_rings) and networkx iteration order '
+                'enter the model as recorded parameters. ')
+
 CLAIMED = {
+    'C01': {
+        'text': ('Lean 4: L-restore — for every description whose descriptors are uniquely labelled complementary pairs '
+                 'and whose base-graph orders count the cut bonds, the bond loop re-creates exactly the cut bonds for '
+                 'every ordering of base-graph edges/atoms/descriptors; bond-order rule; uncut description makes no bond; '
+                 'hydrogen completion reaches the smallest fitting valence. The one-step model is tied to the code by '
+                 'exact differential execution on generated molecules x partitions x renderings; the end-to-end '
+                 'isomorphism (incl. pysmiles parsing and aromaticity) is checked by the oracle on the same inputs.'),
+        'note': RESOLVE_NOTE + 'Partial by nature: aromatic perception is pysmiles\' (contracts A0-A2).',
+        'design': '§7 C01',
+    },
+    'C02': {
+        'text': ('Lean 4: instantiation appends an attribute-faithful copy of the template (atoms in template order, '
+                 'template bonds between the copies), every fine node records exactly one instantiated coarse node, '
+                 'membership sets are exactly {n | k in fragid n} and cover the graph, renumbering keeps membership/names. '
+                 'Model tied to the code by exact differential execution of every resolution step.'),
+        'note': RESOLVE_NOTE + 'Preservation of the copy through bonds/squash/hydrogens is validated by the oracle, not proved.',
+        'design': '§7 C02',
+    },
     'C03': {
         'text': ('Proved in Lean 4 for every base-graph edge list, every initial descriptor state and both conventions: '
                  'characterisation of compatible (the function translated from resolve.py each run is proved equal to the '
@@ -15,11 +37,52 @@ CLAIMED = {
                  'compatible pair both atoms carried, conservation of descriptors (none used twice), exactly `order` '
                  'bonds under the dedicated-unique-pair hypothesis (L-restore), bond order rule. The model of the '
                  'resolution step is tied to the code by exact differential execution on generated descriptions.'),
-        'note': ('Trusted: Lean kernel (axioms propext, Classical.choice, Quot.sound only), translate.py, the '
-                 'correspondence harness and its generators; pysmiles.correct_aromatic_rings is a recorded parameter; '
-                 'networkx iteration order enters as input. The final "1.5 inside aromatic rings" clause rests on that '
-                 'external call.'),
+        'note': RESOLVE_NOTE + 'The final "1.5 inside aromatic rings" clause rests on pysmiles.',
         'design': '§7 C03',
+    },
+    'C06': {
+        'text': ('Lean 4 on the level-loop model: manual stepping = resolve_iter, resolve_all = last of resolve_iter, the '
+                 'results form a chain (coarse graph of step i+1 = fine graph of step i, names switched), every step is '
+                 'the one-step model so the per-step theorems hold at every level; L-restore applies level-wise. '
+                 'End-to-end equivalence with the flattened description is validated by correspondence + oracle on '
+                 'generated hierarchical groupings (partial: not proved).'),
+        'note': RESOLVE_NOTE,
+        'design': '§7 C06',
+    },
+    'C09': {
+        'text': ('Lean 4 on rebuild_h_atoms\' model: for every graph, every non-hydrogen atom whose bonds fit a listed '
+                 'valence ends with bond orders summing exactly to the smallest fitting valence (valence lists = pysmiles\' '
+                 'table regenerated each run, proved ascending by kernel evaluation); truncation for half-integral sums; '
+                 'nothing added beyond the largest valence. Tied to the code by exact differential execution of resolver '
+                 'and sampler outputs incl. hydrogens and inherited attributes.'),
+        'note': RESOLVE_NOTE + 'Bond orders inside aromatic rings are what pysmiles returns (A2).',
+        'design': '§7 C09',
+    },
+    'C10': {
+        'text': ('Lean 4 on the contraction model (networkx.contracted_nodes semantics): exactly one atom fewer per '
+                 'contraction, every other atom unchanged, the removed atom gone, memberships/mappings concatenated on '
+                 'the kept atom, bonds not involving the removed atom kept. Tied to the code by exact differential '
+                 'execution on generated overlapping descriptions (incl. atoms shared by 3-4 fragments).'),
+        'note': RESOLVE_NOTE + 'The full quotient statement and the equivalence with disjoint descriptions are validated by the oracle (partial).',
+        'design': '§7 C10',
+    },
+    'C11': {
+        'text': ('Lean 4: zero-order edges anywhere in the edge list contribute nothing to state or bonds; no bond is ever '
+                 'made for an order-0 edge; a fragment-less node with an order>=1 edge makes the step raise SyntaxError '
+                 'wherever it stands; a virtual node can be removed from any position without changing the instantiated '
+                 'molecule or the instance table, and is never instantiated. Tied to the code by differential execution '
+                 'with virtual nodes inserted at first/middle/last positions.'),
+        'note': RESOLVE_NOTE + 'Renumbering of coarse keys by string-level insertion is covered by the oracle.',
+        'design': '§7 C11',
+    },
+    'C12': {
+        'text': ('Lean 4 (L-sort): renumbering maps keys bijectively onto 0..n-1, strictly monotone in (membership list, '
+                 'old key), blocks per coarse node, touches nothing but keys; atom-name indices are injective. '
+                 'Process-level determinism (hash seeds, call histories sharing libraries, constructors, permuted '
+                 'definitions, non-mutation) cannot be exhibited by a pure model and is validated by requiring every '
+                 'call of every explored history / hash seed to equal the pure model (partial by nature).'),
+        'note': RESOLVE_NOTE + 'Interpreter state is outside the model.',
+        'design': '§7 C12',
     },
 }
 
